@@ -16,7 +16,7 @@ NOTES = {
  "C04": "as planned; the create/marginalize relation is proved in the form `marginal_is_spectrum` / `marginal_counts` (`Props/C04X.lean`): the marginal of the spectrum of a site list is the spectrum of the sites with the removed populations ignored (with `C06.create_is_spectrum` this is the `create` statement for data complete on all selected samples).",
  "C05": "as planned (`fill_table` is checked by the CLI fill cases of C17/C05 rather than as a theorem).",
  "C06": "plus `Props/C06E.lean` (counts below 2^53 survive the precision-0 text pipe between `create` and `stat` bit for bit) and the `statCli` model of the option surface (header row written before the statistics are computed, one precision for all or one each, otherwise a usage error). Model `Model/Stat.lean` (all 14 statistics, generic scalar, D statistics as (numerator, variance) pairs), specification `Spec/Stat.lean` (genotype-level and published formulas). All planned theorems incl. the three 'published' ones are proved; `linear_stat` is the key lemma. The driver evaluates the *specification* (not the model) for genotype-level cases, so model = spec is also exercised at run time.",
- "C07": "as planned, split into `Props/C07Npy.lean` / `Props/C07Text.lean`. `text_value_roundtrip` is proved for all precisions (the model's magnitude guards at ±400 decimal digits are shown harmless). `text_npy_text` (15 significant digits) stays correspondence-only: the driver checks the clause on the model for every generated case.",
+ "C07": "as planned, split into `Props/C07Npy.lean` / `Props/C07Text.lean`. `text_value_roundtrip` is proved for all precisions (the model's magnitude guards at ±400 decimal digits are shown harmless). The *ext* theorem `text_npy_text` (15 significant digits) is proved too (`Props/C07X.lean`, through `nearest_error`: relative error ≤ 2^-53 of the model's decimal → binary64 conversion in the normal range, for precision ≤ 300); the driver still re-checks the clause on the model for every generated case.",
  "C08": "as planned; generator now covers every ordered combination of genotype classes over three selected columns (seed C08-B).",
  "C09": "as planned except `label_perm_transposes` (no separate transposition theorem: the model recomputes ids and the correspondence compares).",
  "C10": "as planned; fault streams now place a ploidy error before/after a skipped sample of the same record (seed C10-B).",
